@@ -178,8 +178,8 @@ def run(tier):
     # arguments / gets a constant of the wrong kind / nil / an undefined name / one argument too many ...
     # A checker that recognises an API by name and then trusts what the compiler would have enforced panics.
     kinds_all = ["noargs", "droplast", "intfirst", "nilfirst", "extra", "undeffirst", "strlits", "noimports", "swapargs", "callfirst",
-                 "undeftypes", "undefsel", "undeffun", "nobodies", "noresults", "extrarhs", "noelts", "undefelts"]
-    kinds = kinds_all if tier == "thorough" else kinds_all[:4] + vlib.rng("c19ill").sample(kinds_all[4:], 3)
+                 "undeftypes", "undefsel", "undeffun", "nobodies", "noresults", "extrarhs", "noelts", "undefelts", "emptyrecv", "badrecv", "methodize"]
+    kinds = kinds_all if tier == "thorough" else kinds_all[:4] + kinds_all[-3:-1] + vlib.rng("c19ill").sample(kinds_all[4:-3] + kinds_all[-1:], 2)
     ipf = os.path.join(work, "illpats")
     rc, so, se = vlib.sh([vw, "illtype", "-repo", vlib.REPO, "-ws", ws, "-kinds", ",".join(kinds), "-patterns", ipf], timeout=600)
     if rc != 0:
@@ -229,13 +229,27 @@ def run(tier):
             m = re.search(r"\n(github\.com/go-critic/go-critic/[^\s(]+)\(", txt)
             res.add_violation("crash:illtyped-cli:%s" % (m.group(1).split("/")[-1] if m else "?"), "go-critic check -enableAll %s crashed with a Go panic/trace" % pk,
                               {"package": pk, "dir": os.path.join(ws, pk), "stderr": se[-2500:]})
+    # a legal package named m_test that is the root of a module whose path ("m") is shorter than the suffix "_test"
+    sp = os.path.join(vlib.mktmp("c19sp-"), "m")
+    os.makedirs(sp)
+    open(os.path.join(sp, "go.mod"), "w").write("module m\n\ngo 1.21\n")
+    open(os.path.join(sp, "a.go"), "w").write("package m_test\n\nfunc F(s string) bool { return len(s) >= 0 }\n")
+    for b in ("go-critic", "gocritic", "go-critic-analysis"):
+        rc, so, se = vlib.sh([os.path.join(bins, b)] + (["check", "-enableAll", "."] if "analysis" not in b else ["-enable-all", "."]), cwd=sp, timeout=300)
+        res.count("runs")
+        res.put("cases", "broken|%s|shortpath" % b)
+        txt = se + so
+        if CRASH_RE.search(txt):
+            m = next((x for x in re.finditer(r"\n([A-Za-z][\w./-]*\.[^\s(]+)\(", txt) if not x.group(1).startswith(("runtime.", "panic", "testing.", "main."))), None)
+            res.add_violation("crash:broken:%s:%s" % ("analyzer" if "analysis" in b else "cli", m.group(1).split("/")[-1] if m else "shortpath"),
+                              "%s on a package named m_test at the root of module m crashed with a Go panic/trace" % b, {"binary": b, "dir": sp, "stderr": se[-2500:]})
     cov = {
         "evaluations": res.counts.get("runs", 0) + res.counts.get("parallel_passes", 0) + res.counts.get("ill_packages_analysed", 0),
         "ill_typed_packages_analysed_in_process": res.counts.get("ill_packages_analysed", 0),
         "ill_typed_checker_file_runs": res.counts.get("ill_checker_file_runs", 0),
         "ill_typed_kinds": kinds,
         "distinct_nontrivial": len(res.sets.get("cases", ())),
-        "rule": "fault alphabet = %d invalid configurations x 4 binaries x package counts %s, plus %d broken target packages (syntax/type/import/mixed-clause/duplicate/cycle/empty) alone and mixed with healthy ones, plus the maintainers' examples of every checker made ill-typed in up to eighteen ways (all calls without arguments, without the last one, with 42 / nil / an undefined name / a multi-value call first, one argument too many, swapped, numeric literals turned into strings, imports removed, undefined types / selectors / callees / literal elements, functions without bodies, returns without results, one right-hand side too many), every checker run over every such file under recover and a sample through the real command; "
+        "rule": "fault alphabet = %d invalid configurations x 4 binaries x package counts %s, plus %d broken target packages (syntax/type/import/mixed-clause/duplicate/cycle/empty) alone and mixed with healthy ones, plus the maintainers' examples of every checker made ill-typed in up to twenty-one ways (all calls without arguments, without the last one, with 42 / nil / an undefined name / a multi-value call first, one argument too many, swapped, numeric literals turned into strings, imports removed, undefined types / selectors / callees / literal elements, functions without bodies, returns without results, one right-hand side too many, methods with an empty receiver list or a receiver that is no type name, functions turned into methods of an undefined type), every checker run over every such file under recover and a sample through the real command; "
                 "oracle = non-zero status + message naming the problem + no panic/goroutine trace + no diagnostics + same behaviour for every package count; "
                 "distinct_nontrivial = distinct (kind, binary, configuration or broken target) cases" % (len(bad_cli), counts, len(BROKEN)),
         "analyzer_reentry_passes": res.counts.get("parallel_passes", 0),
